@@ -268,7 +268,7 @@ func StdMethods() []MethodSpec {
 		{Name: "Multi", Rule: &Rule{Method: "GET", Path: "/v1/multi/{name=**}", Extra: []Rule{{Method: "GET", Path: "/v1/m2/{name=a/*}/x/{extra_text}"}}}},
 		{Name: "Nested", Rule: &Rule{Method: "POST", Path: "/v1/nested/{child.name}:act", Body: "tags", RespBody: "child"}},
 		{Name: "Scalar", Rule: &Rule{Method: "PATCH", Path: "/v1/scalar/{child.child.name=x/*}", Body: "num", RespBody: "tags"}},
-		{Name: "Blob", Rule: &Rule{Method: "POST", Path: "/v1/blob/{name}", Body: "body", RespBody: "body"}},
+		{Name: "Blob", Rule: &Rule{Method: "POST", Path: "/v1/blob/{name}", Body: "body", RespBody: "body", Extra: []Rule{{Method: "GET", Path: "/v1/blobmeta/{name}"}}}}, // (two bindings whose response_body differ)
 		{Name: "RawIO", In: "google.api.HttpBody", Out: "google.api.HttpBody", Rule: &Rule{Method: "POST", Path: "/v1/raw", Body: "*"}},
 		{Name: "NoRule"},
 		{Name: "CStream", ClientStream: true},
